@@ -109,6 +109,10 @@ func (d DID) String() string {
 func ecdsaPubKeyUnmarshaler(curve elliptic.Curve) crypto.PubKeyUnmarshaller {
 	return func(data []byte) (crypto.PubKey, error) {
 		x, y := elliptic.UnmarshalCompressed(curve, data)
+		if x == nil {
+			// not a compressed point of this curve (wrong length or prefix, x out of range or not on the curve)
+			return nil, fmt.Errorf("invalid compressed %s public key", curve.Params().Name)
+		}
 
 		ecdsaPublicKey := &ecdsa.PublicKey{
 			Curve: curve,
